@@ -100,6 +100,19 @@ def series(kind, n, seed):
             c[i, 1:5] = c[i - 1, 2]
             c[i, 5] = 0.0
         return c
+    elif kind == 'ties':
+        # an ordinary market in which, now and then, a candle repeats the previous one exactly (same OHLC, fresh volume) or
+        # closes exactly where the previous one closed: rules that compare a candle with its neighbour hit their `equal` branch
+        # at isolated positions in the middle of the series
+        c = gen.candles({'seed': seed, 'n': n, 'vol': 0.006, 'start': 100.0, 'zero_vol_p': 0.0})
+        for i in sorted(rng.sample(range(2, n), max(3, n // 9))):
+            if rng.random() < 0.6:
+                c[i, 1:5] = c[i - 1, 1:5]
+            else:
+                c[i, 2] = c[i - 1, 2]
+                c[i, 3] = max(c[i, 3], c[i, 2])
+                c[i, 4] = min(c[i, 4], c[i, 2])
+        return c
     elif kind == 'constant':
         c = gen.candles({'seed': seed, 'n': n, 'vol': 0.0, 'flat_p': 1.0, 'start': 75.0, 'zero_vol_p': 0.0})
     elif kind == 'monotone':
@@ -111,6 +124,15 @@ def series(kind, n, seed):
         raise ValueError(kind)
     c[:, 5] = np.where(c[:, 5] <= 0, 1.0, c[:, 5])
     return c
+
+
+def special_positions(c):
+    """Indices of candles that tie with their predecessor (close, typical price, high or low) or did not trade."""
+    if len(c) < 3:
+        return []
+    tp = (c[:, 3] + c[:, 4] + c[:, 2]) / 3
+    m = (c[1:, 2] == c[:-1, 2]) | (tp[1:] == tp[:-1]) | (c[1:, 3] == c[:-1, 3]) | (c[1:, 4] == c[:-1, 4]) | (c[1:, 5] == 0)
+    return [int(i) + 1 for i in np.flatnonzero(m)]
 
 
 def period_keys(sig):
